@@ -125,6 +125,30 @@ def main(argv):
         violations.append((rp, False))
     corr_results = part_results
 
+    # ---- known findings: replay each listed witness against the real code ----
+    known = [k for k in load_known() if pid in k.get("properties", []) and k.get("status") == "open"]
+    kf_report = []
+    if any(k.get("kind") == "cc" for k in known):
+        kr = corr_cc.cc_findings(ctx)
+        for k in known:
+            if k.get("kind") != "cc":
+                continue
+            v = (kr.get("witness") or {}).get(k["program"])
+            if v is None:
+                kf_report.append({"id": k["id"], "state": "not evaluated"})
+                continue
+            if k["expect"] == "differs":
+                still = v.get("impl_eq_reference") is False
+            elif k["expect"] == "panic":
+                still = v.get("status") == "panic"
+            elif k["expect"] == "unbuildable":
+                still = bool(v.get("build"))
+            else:
+                still = False
+            kf_report.append({"id": k["id"], "state": "reproduces" if still else "no longer reproduces", "observed": v})
+            if still:
+                known_lines.append(f"KNOWN-FINDING: property={pid} {k['id']} {k['what']}")
+
     # ---- evidence ----
     evals = sum(r.get("n", 0) for r in corr_results.values())
     stage_cov = {}
@@ -145,6 +169,7 @@ def main(argv):
             "samples": sum([(r.get("stats", {}).get("samples") or r.get("samples") or [])[:3] for r in stage_results.values()], []) or ["(none)"],
             "correspondences": {c: {"inputs": r.get("n", 0), "disagreements": r.get("n_dis", 0)} for c, r in corr_results.items()},
             "stages": stage_cov,
+            "known_findings": kf_report,
             "exhaustive": False,
         },
         "assumptions": props.TB_COMMON,
